@@ -45,7 +45,12 @@ TECHNIQUE = ("Lean 4 proofs about the trace model (snippet window/numbering/mark
              "predicate on the rendered text")
 LEVEL_TEXT = ("numbers_consecutive_marked, lines_verbatim, frames_filtered, render_contains, render_fails_iff and "
               "escape_roundtrip are proved for ALL sources, token streams satisfying the tokenizer contract, frame "
-              "lists, messages and formatters; that the model is the code is sampled by comparing highlighted lines, "
+              "lists, messages and formatters; their hypotheses about the external engines are DECIDED by the model on every "
+              "case: the tokenizer contract on the real token stream of every source without multi-line tokens "
+              "(contract_decides / lines_verbatim_decided), the tokenizer's outcomes on every frame (frames_ok_decides / "
+              "render_fails_iff_decided); the contract of crashtest's compact is PROVED for the executable port "
+              "(port_compact_sound) whose collections are compared with the real engine's on every case; "
+              "that the model is the code is sampled by comparing highlighted lines, "
               "snippets, the filtered frame list and the complete rendered text on generated programs (files, "
               "source-less code, recursion depths 1..60, chained causes, adversarial messages) x verbosity x UTF-8 x "
               "ignore pattern x plain/ANSI; the rendered text is additionally judged by the property statement itself.")
@@ -56,7 +61,10 @@ LEVEL_NOTE = ("Trusted: Lean kernel + propext/Quot.sound/Classical.choice; the h
 LEAN_MODULES = ["Clikit.Props.C20"]
 REQUIRED_THEOREMS = ["Clikit.Props.C20.numbers_consecutive_marked", "Clikit.Props.C20.lines_verbatim",
                      "Clikit.Props.C20.frames_filtered", "Clikit.Props.C20.render_contains",
-                     "Clikit.Props.C20.render_fails_iff", "Clikit.Props.C20.escape_roundtrip"]
+                     "Clikit.Props.C20.render_fails_iff", "Clikit.Props.C20.escape_roundtrip",
+                     "Clikit.Props.C20.contract_decides", "Clikit.Props.C20.lines_verbatim_decided",
+                     "Clikit.Props.C20.frames_ok_decides", "Clikit.Props.C20.port_compact_sound",
+                     "Clikit.Props.C20.render_fails_iff_decided"]
 RULE = ("trace cases: program = filler blocks (comments, numbers, strings, multi-line lists, triple-quoted strings, "
         "f-strings, tab-indented functions, classes, non-ASCII, operators that look like tags, markup-like text on plain "
         "output) around catch/start/rec/raise-site definitions; route direct | through a library under vendor/ | through "
@@ -71,13 +79,19 @@ TRUSTED_BASE = [
     "Lean 4.33 kernel; axioms propext, Classical.choice, Quot.sound only (audited per theorem on every run)",
     "lean/Clikit/Model/Trace.lean: hand-written model of exception_trace.py; its fidelity is what the correspondence samples",
     "tools/genparts/c20.py: reads Highlighter.DEFAULT_THEME / UI, the snippet window sizes and the minimum number width with ast",
-    "external engines: CPython 3.12 tokenize (token stream = model input; contract: ordered, string = slice of line, "
-    "checked on every generated source), crashtest 0.3.1 Inspector / FrameCollection.compact (ported for the driver, "
-    "compared on every case), pastel 0.2.1 (applied by the harness to the model's markup), re.match",
+    "external engines: CPython 3.12 tokenize (token stream = model input; the contract WF of lines_verbatim - ordered, "
+    "consecutive rows, string = slice of line, one `line` per row - is decided by the model (wfB, contract_decides) on the "
+    "real stream of every source and must hold unless a token spans several rows; that the reported `line` is the source "
+    "line is checked by expected_contract()), crashtest 0.3.1 Inspector / FrameCollection.compact (ported for the driver; "
+    "the port is proved to hand back only frames it was given and its collections are compared with the real engine's on "
+    "every case that lists frames), pastel 0.2.1 (applied by the harness to the model's markup), re.match",
     "harness/props/c20.py: program generator, traceback facts read from the traceback objects, text parser of the oracle",
 ]
 ASSUMPTIONS = [
-    "exceptions that were raised (an exception without traceback has no frames and renders nothing in full mode)",
+    "exceptions that were raised (an exception without traceback has no frames and renders nothing in full mode; "
+    "hypothesis `frames ≠ []` of render_contains: Program.raise_it() rejects a case whose exception has no traceback)",
+    "render_fails_iff: the tokenizer delivers a stream for every frame's file and a complete stream or TokenError for every "
+    "frame's line - decided by the model on every trace case (entry c20.wf, key frames_ok, expected true)",
     "no solution provider repository; Python >= 3.6 renderer; output neither quiet nor closed",
     "messages and sources without lone surrogates, carriage returns, form feeds and ESC; str(exception) does not raise",
     "history independence of the renderer is C17's subject: the class-level caches (_FRAME_SNIPPET_CACHE, crashtest's "
@@ -582,6 +596,34 @@ def contract_status(text):
     return "wf"
 
 
+def expected_contract(text):
+    """what the model's decider (`contractStatus`, theorem contract_decides) must answer for the real tokenizer's stream
+    of `text`: the hypothesis WF of lines_verbatim has to HOLD ('wf') unless a token spans several rows ('multi': the
+    theorem does not speak about the stream); None = the tokenizer fails.  Only the class is computed here - whether
+    the contract holds is decided by the model, so a stream of single-line tokens that breaks it is a disagreement."""
+    try:
+        toks = list(_tokenize.tokenize(_io.BytesIO(text.encode("utf-8")).readline))
+    except Exception:  # noqa
+        return None
+    body = []
+    for t in toks:
+        if t.start[0] == 0:
+            continue
+        if t.type == _tokenize.ENDMARKER:
+            break
+        if t.start[0] < t.end[0]:
+            return "multi"
+        body.append(t)
+    # the theorem speaks about the physical lines the tokenizer REPORTS (`line` attribute, `physOf` in the model);
+    # that these are the lines of the source text is checked here (the model never sees the text itself)
+    lines = text.split("\n")
+    for t in body:
+        r = t.start[0]
+        if t.line.rstrip("\n") != (lines[r - 1] if r <= len(lines) else ""):
+            return "line-attribute-is-not-the-source-line: row %d" % r
+    return "wf"
+
+
 _ENV = None
 
 
@@ -600,6 +642,7 @@ def norm_newlines(text):
 
 # ------------------------------------------------------------------ implementation side
 _COMPACT_LOG = None
+_COMPACT_OUT = []
 
 
 def worker_init():
@@ -617,7 +660,10 @@ def _install_compact_recorder():
 
     def compact(self):
         _COMPACT_LOG.append([(f.filename, f.lineno, f.function) for f in self])
-        return real(self)
+        result = real(self)
+        # what the real engine hands back: [[frames of the collection], _count] (compared with the model's port)
+        _COMPACT_OUT.append([[[[f.filename, f.lineno, f.function] for f in coll], coll._count] for coll in result])
+        return result
 
     FrameCollection.compact = compact
 
@@ -669,7 +715,7 @@ def run_impl(case):
         src = norm_newlines(_highlight_source(case))
         return {"split": _highlight_obs(src, case["utf8"]),
                 "snippet": _snippet_obs(src, case["line"], case["before"], case["after"], case["utf8"]),
-                "contract": contract_status(src)}
+                "contract": contract_status(src), "expect_contract": expected_contract(src)}
     from clikit.ui.components.exception_trace import ExceptionTrace
     with Program(case) as p:
         exc = p.raise_it()
@@ -677,6 +723,7 @@ def run_impl(case):
         io = _make_io(case)
         io.set_verbosity(case["verbosity"])
         del _COMPACT_LOG[:]
+        del _COMPACT_OUT[:]
         raised = None
         try:
             trace = ExceptionTrace(exc)
@@ -715,6 +762,9 @@ def run_impl(case):
             "kept": kept,
             "splits": splits,
             "snippet": snippet,
+            "expect_contracts": [expected_contract(t) for t in texts],
+            "compact": ([[[[p.display(fn), ln, fu] for (fn, ln, fu) in coll], n] for (coll, n) in _COMPACT_OUT[0]]
+                        if _COMPACT_OUT else None),
             "facts": {"name": type(exc).__name__, "message": str(exc),
                       "tb": [[p.display(fn), ln, fu] for (fn, ln, fu) in facts],
                       "ignored": [bool(re.match(pattern, fn)) if pattern else False for (fn, _l, _f) in facts]},
@@ -788,6 +838,8 @@ def model_requests(case):
         {"m": "c20.snippet", "keywords": env["keywords"], "builtins": env["builtins"],
          "src": streams[index[fx["frames"][-1]["text"]]], "line": fx["frames"][-1]["lineno"], "before": 4, "after": 4,
          "utf8": bool(case["utf8"])},
+        # the hypotheses of render_fails_iff decided on the real frames + the collections of the port of compact
+        {"m": "c20.wf", "sources": streams, "frames": frames, "ignoreSet": fx["ignoreSet"], "debug": case["verbosity"] == 4},
     ]
     return reqs
 
@@ -806,6 +858,10 @@ def _split_answer(a):
     return {"ok": a["ok"]["lines"]}
 
 
+def _contract_answer(a):
+    return None if "err" in a else a["ok"]["contract"]
+
+
 def _snippet_answer(a):
     if "err" in a:
         return {"err": a["err"]}
@@ -818,9 +874,9 @@ def model_obs(case, answers):
         snip = _snippet_answer(answers[1])
         if "err" in sp:
             snip = {"err": sp["err"]}
-        return {"split": sp, "snippet": snip}
+        return {"split": sp, "snippet": snip, "contract": _contract_answer(answers[0]["results"][0])}
     fx = _facts(case)
-    render, frames, split, snip = answers
+    render, frames, split, snip, wf = answers
     if "err" in render:
         raised, out = render["err"], None
     else:
@@ -832,14 +888,21 @@ def model_obs(case, answers):
     if not case.get("simple") and case["verbosity"] >= 1 and frames["count"] - 1 != 0 and fx["frames"]:
         kept = frames["kept"]
     splits = [_split_answer(a) for a in split["results"]]
-    return {"raised": raised, "out": out, "kept": kept, "splits": splits, "snippet": _snippet_answer(snip)}
+    return {"raised": raised, "out": out, "kept": kept, "splits": splits, "snippet": _snippet_answer(snip),
+            "contracts": [_contract_answer(a) for a in split["results"]],
+            "frames_ok": wf["frames_ok"], "compact": wf["compact"] if kept is not None else None}
 
 
 def impl_view(case, obs):
     if case["kind"] == "highlight":
-        return {"split": obs["split"], "snippet": obs["snippet"]}
+        return {"split": obs["split"], "snippet": obs["snippet"], "contract": obs["expect_contract"]}
     v = {"raised": obs["raised"], "out": obs["out"] if obs["raised"] is None else None, "kept": obs["kept"],
-         "splits": obs["splits"], "snippet": obs["snippet"]}
+         "splits": obs["splits"], "snippet": obs["snippet"],
+         # hypotheses of the theorems, decided by the model on the real engines' outputs: the tokenizer contract holds
+         # for every stream of single-line tokens (contract_decides), the tokenizer's outcomes on every frame are the
+         # ones render_fails_iff assumes (frames_ok_decides); the port of compact (port_compact_sound) makes the
+         # collections crashtest makes
+         "contracts": obs["expect_contracts"], "frames_ok": True, "compact": obs["compact"]}
     return v
 
 
